@@ -219,6 +219,37 @@ def run_single(desc, tier, seed, res):
                             res.violation("C09/read-fault/garbled-answer-not-reported", f"{name}: framing error on read {pos} gave {g} instead of ResponseError", w2)
                         elif fk == "silence" and g[0] != "notimpl":
                             res.violation("C09/read-fault/silence-not-reported", f"{name}: no answer on read {pos} gave {g}", w2)
+    if tier == "thorough" and desc["rep"] == 0:
+        # sweep: every last accessible location 0..254 and a hole at every location of (and next to) every value
+        for name, cls, row in values:
+            r = rng(seed, "C09", "sweep", bankkey, name)
+            for last in range(0, 255):
+                for holes in ([],) if last % 8 else ([], [row.first] if row.first > 2 else [], [row.last] if row.last > 2 else [],
+                                                     [min(row.last + 1, 254)], [max(row.first - 1, 3)]):
+                    img = make_image(r, bankkey, "random")
+                    family = ["gear", "device", "int"][last % 3]
+                    unit, other, bank, other_bank, addr = make_unit(r, bankkey, img, last, holes, family)
+                    bus = Bus([unit, other], bound=400)
+                    res.evaluations += 1
+                    res.distinct += 1
+                    res.hit("single_reads")
+                    wit = {"value": name, "bank": bankkey, "last": last, "holes": holes, "family": family, "sweep": True}
+                    impl = implemented(bank, row)
+                    try:
+                        got = ("ok", bus.run_sequence(cls.read(addr)))
+                    except MemoryLocationNotImplemented:
+                        got = ("notimpl", None)
+                    except Exception as e:
+                        got = ("exc", e)
+                    if not impl:
+                        res.hit("not_implemented_expected")
+                        if got[0] != "notimpl":
+                            res.violation("C09/read/not-implemented-not-raised", f"{name}: last accessible location {last:#x}, holes {holes}: read gave {got}", wit)
+                    elif got[0] != "ok":
+                        res.violation("C09/read/not-implemented-raised-wrongly" if got[0] == "notimpl" else f"C09/read/raised/{type(got[1]).__name__}",
+                                      f"{name}: all locations implemented (last {last:#x}) but read gave {got}", wit)
+                    elif not L.same(got[1], expected_value(row, bank.image, bank)):
+                        res.violation(f"C09/read/value/{row.kind}", f"{name}: read returned {got[1]!r}", wit)
     res.sample({"bank": bankkey, "values": [v[0] for v in values][:4], "n_values": len(values)})
 
 
